@@ -886,5 +886,9 @@ def run(F, R, config="all"):
     K.borrow_rule(R, lambda sub: c18.r1(F, sub), "C01-R10", "momentum refresh per kinetic-energy kind: the velocity written by array_gaussian in initialize_trajectory is "
                   "renormalised exactly on the Microcanonical paths (C18-R1 analysis); normalising it for another kind changes the invariant distribution",
                   only_rules={"C18-R1"})
+    # detailed balance needs the tree weights exp(-H) of every kind and a reversible step: decided per kinetic-energy kind by the C02-R11 analysis
+    from . import c02
+    K.borrow_rule(R, lambda sub: c02.r11(F, sub), "C01-R13", "for every kinetic-energy kind the new point's energy is its own (kinetic energy recomputed, or carried along "
+                  "by the ESH update) and the two velocity half-steps read the same fields of the point (C02-R11 analysis, path-sensitive on the kind)", only_rules={"C02-R11"})
     R.assume("rand's RngExt::random::<bool>() returns true with probability 1/2")
     R.assume("MIR at -Zmir-opt-level=0 is a faithful control-flow model of the source")
